@@ -883,15 +883,15 @@ def check_gds_real(ctx, db):
 
 def run(ctx):
     db = ctx.db
-    check_guards(ctx, db)
-    check_packing(ctx, db)
-    check_directions(ctx, db)
-    check_swaps(ctx, db)
-    check_reals(ctx, db)
-    check_point_lists(ctx, db)
-    check_point_list_fsm(ctx, db)
-    check_point_list_decoder(ctx, db)
-    check_gds_real(ctx, db)
+    ctx.attempt(check_guards, ctx, db)
+    ctx.attempt(check_packing, ctx, db)
+    ctx.attempt(check_directions, ctx, db)
+    ctx.attempt(check_swaps, ctx, db)
+    ctx.attempt(check_reals, ctx, db)
+    ctx.attempt(check_point_lists, ctx, db)
+    ctx.attempt(check_point_list_fsm, ctx, db)
+    ctx.attempt(check_point_list_decoder, ctx, db)
+    ctx.attempt(check_gds_real, ctx, db)
 
 
 MANIFEST = dict(
